@@ -32,6 +32,29 @@ def r1_signature_gate(ctx):
     r.anchor(somes, "Some(..) result of confirm")
     loops = q.loop_with_source(body, lambda s: True)
     loops = [l for l in loops if "$2" in sig(l[3])]
+    if not loops:
+        # the same gate spelled with an adapter: `proof.iter().all(|(k, sig)| k.verify(msg, sig))`, and `false ⇒ None`
+        alls = [(bi, e) for bi, e in q.call_exprs(body, "Iterator::all") if "$2" in sig(e[2][0]) and e[2][1][0] == "closure"]
+        if len(alls) == 1:
+            abi, ae = alls[0]
+            r.check(sig(mir.strip(ae[2][0])) in ("BTreeMap::iter($2)", "$2"), "loop/whole", "`all` ranges over the whole proof", "`all` ranges over %s" % sig(ae[2][0]), body.where(abi))
+            c = ctx.prog.body(ae[2][1][1])
+            caps = dict(ae[2][1][2]) if len(ae[2][1]) > 2 else {}
+            ver = q.calls_to(c, "Ed25519PK::verify")
+            rets = q.ret_assignments(c)
+            r.check(len(ver) == 1 and len(rets) == 1 and q.is_call(rets[0][2], "Ed25519PK::verify"), "verify/present", "the predicate is the signature verification itself",
+                    "the `all` predicate is not exactly one Ed25519PK::verify call (returns %s)" % [sig(x[2])[:80] for x in rets], body.where(abi))
+            for vbi, vt in ver:
+                e = q.subst(c.rec_call(vt, vbi), {}, {k.replace("_ref__", ""): v for k, v in caps.items()} | caps)
+                r.check(sig(e[2][0]) == "$2.0", "verify/key", "verifying key = the entry's key", "verifying key = %s" % sig(e[2][0]), c.where(vbi))
+                r.check(sig(q.novers(e[2][1])) in ("Header::hash(SealedState::header($1))", "Header::hash(SealedState::header(^self))"), "verify/message", "message = self.header().hash()", "message = %s" % sig(e[2][1]), c.where(vbi))
+                r.check(sig(e[2][2]) == "$2.1", "verify/sig", "signature = the entry's signature", "signature = %s" % sig(e[2][2]), c.where(vbi))
+            f = Forcing(body, lambda x, ae=ae: 0 if x == ae else None)
+            alive = [b for b in somes if b in f.reach_from(abi)]
+            r.check(not alive, "verify/false=>none", "with a failing signature no Some(..) is reachable", "with a failing signature Some(..) at bb%s is reachable" % alive, body.where(abi))
+            wo = body.reachable(0, removed=[abi])
+            r.check(not any(b in wo for b in somes), "some-after-loop", "Some(..) is reachable only after every signature was checked", "Some(..) is reachable without checking the signatures", body.where(abi))
+            return
     r.check(bool(loops), "loop", "loops over the proof", "confirm has no loop over the proof entries")
     if not loops:
         return
